@@ -37,7 +37,7 @@ CHECKS = {
          "C18_fb_decodes_accepted, C18_tfrec_decodes_accepted, C18_tfrec_no_orphan_file, witnesses C18_npz_pinned_ragged (D5b) and C18_tfrec_pinned_orphan (D4b); each real writer is driven directly "
          "with missing keys / wrong shapes / encoder refusals at the first, middle and last attribute and its buffer compared with the model after every call."
          ' C18Src.lean: the model configuration the theorems are proved for (write before metadata attach, before any counter; validation before the buffer is touched) is re-derived from the statement order of write_example / Shard.write / ShardWriterBase.write extracted from the current source on every run (C18_src_model_configuration).'
-         ' C18Conc.lean (model M-PAR: components with private state side by side, any schedule; SedpackProofs/Par.lean proves non-interference - every interleaving projects to the solo runs): C18_overlapping_writers_verdict_is_the_examples - any number of writers validating an example each at overlapping times reach the verdict each example gets alone - and the witness C18_shared_mismatch_list_breaks_it; two threads writing into unrelated datasets with one validation paused in the middle exercise it on the real writers.',
+         ' C18Conc.lean (model M-PAR: components with private state side by side, any schedule; SedpackProofs/Par.lean proves non-interference - every interleaving projects to the solo runs): C18_overlapping_writers_verdict_is_the_examples - any number of writers validating an example each at overlapping times reach the verdict each example gets alone - and the witness C18_shared_mismatch_list_breaks_it; two threads writing into unrelated datasets with one validation paused in the middle exercise it on the real writers, and the recorded interleaving of their checks is replayed on the model (driver endpoint parval): verdicts = the real outcomes.',
     note="numpy can_cast and TensorFlow feature construction decide *which* values an encoder refuses (externals; the model takes that verdict as an input bit per value).",
     ref="DESIGN.md §5 C18"),
  "C13": dict(
